@@ -103,6 +103,102 @@ pub fn make(prop: &str, tier: Tier, seed: u64) -> Scenario {
             p.witness_pct = 50; p.w_overlay = 8; p.w_rollback = 6; p.w_reopen = 10;
             gen_history_cfg(prop, seed >> 3, seed ^ 0x13C0_F16, p, checks_all())
         }
+        "C03" | "C04" | "C14" => {
+            // a short history that builds state (large values, deletions that free pages, a hash
+            // table with tombstones, rollback segments), then one target step whose I/O events get
+            // crash points / loss patterns / failing operations (expanded after a dry run)
+            let mut p = Profile::default();
+            p.steps = (2, 7); p.pool = (6, 40); p.batch = (1, 20); p.big_pct = 14; p.witness_pct = 0;
+            p.w_commit = 60; p.w_reopen = 8; p.w_rollback = 14; p.w_overlay = 14; p.w_compete = 0;
+            p.session_proves = 1; p.session_reads = 1; p.nonblocking_pct = 10; p.bad_rollback_pct = 0;
+            p.small_segments = r.chance(2, 3); p.rollback = Some(r.chance(3, 4));
+            p.small_ht = prop == "C14" && r.chance(1, 6);
+            if r.chance(1, 8) { p.pool = (100, 400); p.batch = (30, 200); p.steps = (2, 4); }
+            let mut c = checks_all();
+            c.witness = false; c.multiproof = false; c.proofs = false; c.reopen_equal = false;
+            c.rules = prop == "C04";
+            let mut s = gen_history(prop, seed, p, c);
+            // hash tables of one meta-map page keep recovery's write order deterministic (DESIGN §3a)
+            if s.opts.buckets > 4096 { s.opts.buckets = 4096; for st in s.steps.iter_mut() { if let Step::Reopen { opts } = st { opts.buckets = 4096; } } }
+            // target: a mutating step (commit / overlay commit / rollback / reopen), preferably late
+            let cands: Vec<usize> = s.steps.iter().enumerate().filter(|(_, st)| matches!(st, Step::Commit { .. } | Step::OvCommit { .. } | Step::Rollback { .. } | Step::Reopen { .. })).map(|(i, _)| i).collect();
+            let target = if cands.is_empty() { 0 } else if r.chance(2, 3) { *cands.last().unwrap() } else { *r.pick(&cands) };
+            let mode = match prop { "C03" => "crash", "C04" => "power", _ => "fail" };
+            s.extra = json!({ "plan": { "target": target, "mode": mode }, "nested": if prop == "C14" { 0 } else { r.range(0, 2) }, "post_power": if prop == "C04" { 2 } else { 0 } });
+            s
+        }
         _ => gen_history(prop, seed, Profile::default(), checks_all()),
     }
+}
+
+fn interesting(site: &str) -> bool {
+    site.starts_with("meta.") || site.starts_with("wal.") || site.starts_with("ht.") || site.starts_with("seg.unlink") || site.starts_with("seg.truncate") || site.starts_with("seg.create") || site.starts_with("seg.dir") || site == "store.grow"
+}
+
+/// Turn a planned scenario plus the dry run's event list into explicit fault plans.
+pub fn expand(base: &Scenario, dry: &crate::exec::Report, tier: Tier) -> Vec<Scenario> {
+    let plan = &base.extra["plan"];
+    let target = plan["target"].as_u64().unwrap_or(0) as usize;
+    let mode = plan["mode"].as_str().unwrap_or("crash").to_string();
+    let events: Vec<String> = dry.step_events.get(target).cloned().unwrap_or_default();
+    let n = events.len() as u64;
+    let mut r = Rng::new(base.run_seed ^ 0xFA17);
+    let mut out = Vec::new();
+    let mut s0 = base.clone();
+    s0.extra.as_object_mut().unwrap().remove("plan");
+    if n == 0 { out.push(s0); return out; }
+    // ordinals: the boundary before each interesting event and the one right after it
+    let mut pts: std::collections::BTreeSet<u64> = Default::default();
+    for (i, e) in events.iter().enumerate() { let site = e.split(':').next().unwrap_or(""); if interesting(site) { pts.insert(i as u64); if (i as u64) + 1 < n { pts.insert(i as u64 + 1); } } }
+    let (cap, all) = match (mode.as_str(), tier) { ("fail", Tier::Quick) => (8, false), ("fail", Tier::Thorough) => (150, true), (_, Tier::Quick) => (14, false), (_, Tier::Thorough) => (400, true) };
+    let mut chosen: Vec<u64> = if all && n <= cap { (0..n).collect() } else {
+        let mut v: Vec<u64> = pts.into_iter().collect();
+        r.shuffle(&mut v);
+        v.truncate((cap as usize * 2) / 3);
+        while (v.len() as u64) < cap.min(n) { let x = r.below(n); if !v.contains(&x) { v.push(x); } }
+        v
+    };
+    chosen.sort();
+    let site_of = |k: u64| events[k as usize].split(':').next().unwrap_or("").to_string();
+    let len_of = |k: u64| events[k as usize].rsplit(':').next().and_then(|x| x.parse::<u64>().ok()).unwrap_or(0);
+    match mode.as_str() {
+        "crash" => {
+            for &k in &chosen {
+                s0.faults.push(Fault { step: target, event: k, kind: FaultKind::CrashImage });
+                if (site_of(k) == "wal.append" || site_of(k) == "seg.append_payload") && len_of(k) > 4096 { s0.faults.push(Fault { step: target, event: k, kind: FaultKind::TornImage { pages: r.next() as u32 } }); }
+            }
+            out.push(s0);
+        }
+        "power" => {
+            let pats = if tier == Tier::Quick { 3 } else { 6 };
+            for &k in &chosen {
+                for j in 0..pats {
+                    let mode = match j { 0 => 0u64, 1 => 2, 2 => 3, 3 => 4, 4 => 5, _ => 2 };
+                    s0.faults.push(Fault { step: target, event: k, kind: FaultKind::PowerImage { pattern: (r.next() / 6) * 6 + mode } });
+                }
+            }
+            out.push(s0);
+        }
+        _ => {
+            // one failing operation per run; plus one run of absorbed short / interrupted page writes
+            for &k in &chosen {
+                let site = site_of(k);
+                let errno = if site.contains("grow") || site.contains("append") || site.contains("pad") || site.contains("reset") { libc::ENOSPC } else { libc::EIO };
+                let mut s = s0.clone();
+                s.faults.push(Fault { step: target, event: k, kind: FaultKind::Fail { errno, persistent: r.chance(1, 2) } });
+                out.push(s);
+            }
+            let pool: Vec<u64> = (0..n).filter(|k| site_of(*k) == "pool.write").collect();
+            if !pool.is_empty() {
+                let mut s = s0.clone();
+                // only the first few: every injected retry shifts the ordinals of later events
+                for (j, k) in pool.iter().take(3).enumerate() {
+                    let kind = if j % 2 == 0 { FaultKind::Short { bytes: 1 + (r.next() % 4095) as u32 } } else { FaultKind::Eintr };
+                    s.faults.push(Fault { step: target, event: *k + j as u64, kind });
+                }
+                out.push(s);
+            }
+        }
+    }
+    out
 }
